@@ -16,8 +16,8 @@ import sys
 sys.path.insert(0, os.path.dirname(os.path.dirname(os.path.abspath(__file__))))
 sys.path.insert(0, os.path.dirname(os.path.abspath(__file__)))
 from rustparse import parse_file, Untranslatable  # noqa: E402
-from rs2coq import HEADER  # noqa: E402
-from fresnel import find_fn  # noqa: E402
+from rs2coq import HEADER, R, load_all  # noqa: E402
+from fresnel import find_fn, FEval  # noqa: E402
 
 BEAMS = {"signal": ("ls", "ps"), "idler": ("li", "pi")}
 
@@ -67,6 +67,95 @@ def collect(node, target, acc, path, line):
     elif isinstance(node, list):
         for x in node:
             collect(x, target, acc, path, line)
+
+
+SETTERS = {"set_angles": 2, "set_phi": 1, "set_theta_internal": 1, "set_theta_external": 1}
+
+
+def beam_calls(node, acc):
+    """method calls on the local `beam`, in evaluation order"""
+    if isinstance(node, tuple) and node:
+        if node[0] == "mcall" and node[1] == ("path", ["beam"]):
+            acc.append(node)
+            return
+        for x in node[1:]:
+            beam_calls(x, acc)
+    elif isinstance(node, list):
+        for x in node:
+            beam_calls(x, acc)
+
+
+def config_try_as_beam(path, items, allidx, cont, polfn, out):
+    """<Signal|Idler>Config::try_as_beam as compositions of the generated Beam constructor / setters, one per angle variant"""
+    it = find_fn(items, "try_as_beam", cont, path)
+    out.span(f"spdc::{cont}::try_as_beam", it)
+    line = it.span[0]
+    ev = FEval(path, items, allidx)
+    env = {"self": ("STRUCT", cont, {"phi_deg": R("phi_deg"), "wavelength_nm": R("wavelength_nm"), "waist_um": R("waist_um")})}
+    start = None
+    arms = None
+    post = []
+    for st in it.body[1]:
+        e = st[3] if st[0] == "let" else (st[1] if st[0] == "expr" else None)
+        if st[0] == "let" and st[1][0] == "pbind" and e is not None and e[0] == "call" and e[1] == ("path", ["Beam", "new"]):
+            if st[1][1] != "beam" or len(e[2]) != 5:
+                raise Untranslatable(path, line, f"{cont}::try_as_beam: Beam::new is not bound to `beam`")
+            if e[2][0] != ("mcall", ("field", ("path", ["crystal_setup"]), "pm_type"), polfn, []):
+                raise Untranslatable(path, line, f"{cont}::try_as_beam: polarization is not crystal_setup.pm_type.{polfn}()")
+            a = [ev.ev(x, env) for x in e[2][1:]]
+            start = f"(beam_new_gen pol {a[0]} {a[1]} {a[2]} {a[3]})"
+        elif st[0] == "let" and st[1][0] == "pbind" and e is not None and e[0] != "match":
+            env[st[1][1]] = ev.ev(e, env)
+        elif e is not None and e[0] == "match":
+            if start is None or arms is not None:
+                raise Untranslatable(path, line, f"{cont}::try_as_beam: unexpected match")
+            if e[1] != ("tuple", [("field", ("path", ["self"]), "theta_deg"), ("field", ("path", ["self"]), "theta_external_deg")]):
+                raise Untranslatable(path, line, f"{cont}::try_as_beam: match is not on (self.theta_deg, self.theta_external_deg)")
+            arms = {}
+            for pat, guard, body in e[2]:
+                if pat[0] == "pwild":
+                    continue
+                if pat[0] != "ptuple" or len(pat[1]) != 2 or guard is not None:
+                    raise Untranslatable(path, line, f"{cont}::try_as_beam: arm pattern")
+                a0, a1 = pat[1]
+                if a0[0] == "ptstruct" and a0[1][-1] == "Some" and a1 == ("ppath", ["None"]):
+                    key, var = "internal", a0[2][0][1]
+                elif a1[0] == "ptstruct" and a1[1][-1] == "Some" and a0 == ("ppath", ["None"]):
+                    key, var = "external", a1[2][0][1]
+                else:
+                    raise Untranslatable(path, line, f"{cont}::try_as_beam: arm pattern {pat!r}"[:200])
+                calls = []
+                beam_calls(body, calls)
+                arms[key] = (var, calls)
+            if sorted(arms) != ["external", "internal"]:
+                raise Untranslatable(path, line, f"{cont}::try_as_beam: arms {sorted(arms)}")
+        elif st[0] == "expr" and e is not None:
+            calls = []
+            beam_calls(e, calls)
+            if not calls or arms is None:
+                raise Untranslatable(path, line, f"{cont}::try_as_beam: unexpected statement")
+            post.extend(calls)
+        elif st[0] != "use":
+            raise Untranslatable(path, line, f"{cont}::try_as_beam: unexpected statement {st[0]}")
+    if start is None or arms is None or it.body[2] != ("call", ("path", ["Ok"]), [("mcall", ("path", ["beam"]), "into", [])]):
+        raise Untranslatable(path, line, f"{cont}::try_as_beam: shape (Beam::new, match on the angle options, Ok(beam.into()))")
+    terms = {}
+    for key, (var, calls) in arms.items():
+        env2 = dict(env)
+        env2[var] = R("theta_deg" if key == "internal" else "theta_external_deg")
+        t = start
+        for c in calls + post:
+            nme = c[2]
+            if nme not in SETTERS:
+                raise Untranslatable(path, line, f"{cont}::try_as_beam: call beam.{nme}")
+            a = [ev.ev(x, env2) for x in c[3][:SETTERS[nme]]]
+            if not all(ev.is_r(x) for x in a):
+                raise Untranslatable(path, line, f"{cont}::try_as_beam: argument of beam.{nme}")
+            t = f"({nme}_gen {'snell_inv ' if nme == 'set_theta_external' else ''}{t} {' '.join(a)})"
+        terms[key] = t
+    pre = cont.replace("Config", "").lower()
+    return [f"Definition {pre}_config_external_gen (snell_inv : beam -> R -> R) (pol : polarization) (phi_deg theta_external_deg wavelength_nm waist_um : R) : beam :=\n  {terms['external']}.\n",
+            f"Definition {pre}_config_internal_gen (snell_inv : beam -> R -> R) (pol : polarization) (phi_deg theta_deg wavelength_nm waist_um : R) : beam :=\n  {terms['internal']}.\n"]
 
 
 def gen_c13_callers(repo, out):
@@ -131,8 +220,13 @@ def gen_c13_callers(repo, out):
                     raise Untranslatable(p, 0, "a pump beam is re-pointed after its conversion (pump.set_phi/theta/angles): 'always points along z' "
                                                "is proved at the conversion only")
 
-    body = [HEADER.format(src="src/spdc/spdc_obj.rs, src/spdc/config/mod.rs (callers of optimal_waist_position)"),
-            "From SpdVerif Require Import Model.Optics.\n",
+    allidx = load_all(repo)
+    cfg_defs = config_try_as_beam(cf_path, cf, allidx, "SignalConfig", "signal_polarization", out) + \
+        config_try_as_beam(cf_path, cf, allidx, "IdlerConfig", "idler_polarization", out)
+    body = [HEADER.format(src="src/spdc/spdc_obj.rs, src/spdc/config/mod.rs (callers of optimal_waist_position; SignalConfig / IdlerConfig::try_as_beam)"),
+            "From SpdVerif Require Import Model.Optics Gen.Beam.\n",
+            "(* <Signal|Idler>Config::try_as_beam as compositions of the generated constructor and setters (Gen/Beam.v), for theta_external_deg and for theta_deg *)\n"
+            + "\n".join(cfg_defs),
             "(* (caller, where the position is stored, wavelength argument, polarization argument); ls/ps: the signal's vacuum wavelength and\n"
             "   polarization, li/pi: the idler's *)\n"
             "Definition waist_position_calls_gen (ls li : R) (ps pi : polarization) : list (string * string * R * polarization) :=\n  ["
